@@ -292,6 +292,7 @@ class Ctx:
         self.disagreements = []        # dict(stream, input, model, impl)
         self.failures = []             # dict(signature, input, observed, expected, oracle, ...)
         self.notes = []
+        self.kernel_suspects = []      # inputs of kernel-level streams (srctie) at which model / source image and code disagreed
         self.advisory = []             # disagreements of advisory streams (translator validation): never a violation
         self.src_tie_lost = set()      # source-tie groups whose translation or equality proof no longer checks
         self.t0 = time.time()
@@ -329,7 +330,7 @@ class Ctx:
             self.disagreements.append({'stream': stream, 'input': None, 'model': f'driver failure: {e}'[:1500],
                                        'impl': None})
             for c in cases:
-                self.suspects.append((stream, c.get('input')))
+                (self.kernel_suspects if stream.startswith('kernel:') else self.suspects).append((stream, c.get('input')))
             return
         for c, o in zip(cases, outs):
             if c.get('canon') is not None and not o.startswith('ERR:') and not o.startswith('bad-'):
@@ -343,12 +344,12 @@ class Ctx:
                 if len(self.advisory) < 50:
                     self.advisory.append({'stream': stream, 'input': c.get('input', c['line']), 'request': c['line'],
                                           'model': o, 'impl': c['impl']})
-                self.suspects.append((stream, c.get('input')))
+                self.kernel_suspects.append((stream, c.get('input')))
             elif o != c['impl']:
                 if len(self.disagreements) < 200:
                     self.disagreements.append({'stream': stream, 'input': c.get('input', c['line']), 'request': c['line'],
                                                'model': o, 'impl': c['impl']})
-                self.suspects.append((stream, c.get('input')))
+                (self.kernel_suspects if stream.startswith('kernel:') else self.suspects).append((stream, c.get('input')))
 
     def fail(self, signature, input, observed, expected, oracle=None, what=None):
         """a concrete input on which the *property* fails on the real code"""
